@@ -156,6 +156,127 @@ def r16_5(chk, P):
            'user_comments[comments]=NULL after comments++ (index old+1 < old+2)')
 
 
+def r16_6(chk, P):
+    chk.rule('R16.6', 'an entry matches a tag exactly when its first strlen(tag)+1 bytes fold to "TAG=": every further condition on the '
+             'way to the match counter of vorbis_comment_query / vorbis_comment_query_count is one that a match implies -- the loop '
+             'range, conditions over locals/parameters only, a null test of the entry, or a linear condition over the entry\'s length '
+             'and the pattern length that follows from  length >= strlen(entry) >= strlen(tag)+1  (exact linear domain).  A length '
+             'pre-check that is off by one (`>` for `>=`) hides every entry with an empty value from both functions alike, so the '
+             'sibling comparison R16.4 cannot see it')
+    import linrel
+    sk = k8.Skel(P, 'r')
+    n = 0
+    for fn in ('vorbis_comment_query', 'vorbis_comment_query_count'):
+        F = P.need(fn)
+        defs = common.single_defs(F)
+
+        def lin(e, depth=0):
+            """linear form {var: coef}, const over: len (recorded length of the entry), slen (strlen of the entry), tlen (strlen of the tag)"""
+            e = F.strip_casts(e)
+            nd = F.ex[e]
+            k = nd['k']
+            if k == 'paren':
+                return lin(nd['c'][0], depth)
+            if k == 'int':
+                return {}, nd['v']
+            c = sk.canon(F, e)
+            if c.startswith('.comment_lengths['):
+                return {'len': 1}, 0
+            if k == 'call' and nd['callee'].get('d') == 'strlen' and nd.get('c'):
+                a = F.ex[F.strip_casts(nd['c'][0])]
+                ca = sk.canon(F, F.strip_casts(nd['c'][0]))
+                if ca.startswith('.user_comments['):
+                    return {'slen': 1}, 0
+                if a['k'] == 'ref' and a['decl']['kind'] == 'param':
+                    return {'tlen': 1}, 0
+                return None
+            if k == 'ref' and nd['decl']['kind'] == 'var' and nd['decl']['id'] in defs and depth < 3:
+                return lin(defs[nd['decl']['id']], depth + 1)
+            if k == 'bin' and nd['op'] in ('+', '-'):
+                a, b = lin(nd['c'][0], depth), lin(nd['c'][1], depth)
+                if a is None or b is None:
+                    return None
+                s_ = 1 if nd['op'] == '+' else -1
+                d = dict(a[0])
+                for v, q in b[0].items():
+                    d[v] = d.get(v, 0) + s_ * q
+                return d, a[1] + s_ * b[1]
+            return None
+        for site, vid, nm in [(n_, v_, m_) for n_, v_, m_ in _counters(F)]:
+            atoms = common.atomic_conditions(F, site)
+            if not any(F.ex[F.strip_casts(c)]['k'] == 'call' for c, pol in atoms):
+                continue
+            for c, pol in atoms:
+                c0 = F.strip_casts(c)
+                nd = F.ex[c0]
+                cs = sk.canon(F, c0)
+                if nd['k'] == 'call':
+                    continue            # the tag comparison itself (R16.4 compares it between the siblings)
+                if '.' not in cs and 'strlen' not in cs:
+                    continue            # relates locals / parameters only (which match is wanted, not whether it is one)
+                if nd['k'] == 'bin' and nd['op'] in ('<', '<=', '>', '>=', '!=') and cs.replace(' ', '') in ('($<.comments)', '(.comments>$)', '($!=.comments)'):
+                    continue            # the loop range
+                if cs.startswith('.user_comments[') and pol:
+                    continue            # null test of the entry
+                ok = False
+                why = 'not a linear condition over the lengths'
+                if nd['k'] == 'bin' and nd['op'] in ('<', '<=', '>', '>=', '==', '!='):
+                    a, b = lin(nd['c'][0]), lin(nd['c'][1])
+                    if a is not None and b is not None:
+                        op = nd['op']
+                        if not pol:
+                            op = {'<': '>=', '<=': '>', '>': '<=', '>=': '<', '==': '!=', '!=': '=='}[op]
+                        po = linrel.Poly()
+                        po.add_ge({'slen': 1, 'tlen': -1}, 1)     # a match of strlen(tag)+1 non-NUL bytes
+                        po.add_ge({'len': 1, 'slen': -1}, 0)      # the recorded length covers the string
+                        po.add_ge({'tlen': 1}, 0)
+                        d = dict(a[0])
+                        for v, q in b[0].items():
+                            d[v] = d.get(v, 0) - q
+                        k0 = b[1] - a[1]                            # a - b  (op)  0   <=>   d.x (op) k0
+                        if op == '<=':
+                            ok = po.entails(d, k0)
+                        elif op == '<':
+                            ok = po.entails(d, k0 - 1)
+                        elif op == '>=':
+                            ok = po.entails_ge(d, k0)
+                        elif op == '>':
+                            ok = po.entails_ge(d, k0 + 1)
+                        elif op == '==':
+                            ok = po.entails_eq(d, k0)
+                        else:
+                            ok = po.entails(d, k0 - 1) or po.entails_ge(d, k0 + 1)
+                        why = 'follows from a match' if ok else 'a matching entry can fail it (length >= strlen(entry) >= strlen(tag)+1 does not imply it)'
+                n += 1
+                chk.ob('R16.6', fn, f'match-needs-only-the-tag:{cs}', ok, F.where(c0),
+                       f'`{("" if pol else "!") + F.s(c0)}` controls `{F.s(site)}`: {why}')
+        n += 1
+        chk.ob('R16.6', fn, 'match-conditions-examined', True, F.where(), 'conditions on the way to the match counter classified')
+    return n
+
+
+def _counters(F):
+    out = []
+    for n in F.pos:
+        nd = F.ex[n]
+        if nd['k'] == 'un' and nd['op'] in ('post++', 'pre++'):
+            t = F.ex[F.strip_casts(nd['c'][0])]
+            if t['k'] == 'ref' and t['decl']['kind'] == 'var':
+                out.append((n, t['decl']['id'], t['decl']['name']))
+    return out
+
+
+def r16_7(chk, P):
+    chk.rule('R16.7', 'no legal byte of a comment is taken for the end of the packet: in the comment reader and the helpers it calls, '
+             'a bit-reader result is tested against -1 / for sign only at a width that holds every value of the field '
+             '(common.eop_alias; a byte kept in a `char` and then compared with -1 refuses the byte 0xFF)')
+    U = P.need('_vorbis_unpack_comment')
+    fs = [U] + [P.fn[k] for k in sorted(P.reachable([P.key(U)])) if k in P.fn and P.fn[k] is not U and P.fn[k].file == U.file]
+    n = common.eop_alias(chk, P, 'R16.7', fs)
+    common.eop_alias_selftest(chk, 'R16.7')
+    chk.ob('R16.7', U.name, 'reader-closure-scanned', True, U.where(), f'{len(fs)} functions: {[f.name for f in fs]}; {n} sentinel tests')
+
+
 def run(chk, P):
     chk.rule('R16.1', 'comment header: _vorbis_pack_comment mirrors _vorbis_unpack_comment (see R05.1) and the reader '
              'implements the layout of 05-comment.tex (see R01.1)')
@@ -176,6 +297,10 @@ def run(chk, P):
     chk.floor('R16.2', 2)
     r16_5(chk, P)
     chk.floor('R16.5', 3)
+    r16_6(chk, P)
+    chk.floor('R16.6', 2)
+    r16_7(chk, P)
+    chk.floor('R16.7', 1)
     import k4rules
     k4rules.c16(chk, P)
     chk.trusted += ['clang 14 front end', 'libc: strlen/strcpy/strcat have their ISO C meaning']
